@@ -11,7 +11,7 @@ and every atomic write to a lock word is evaluated over the field abstraction (a
 """
 import os
 from facts import AnalysisBroken
-from pathsim import Engine, S, C, show, symbols, is_const, is_atomic_record
+from pathsim import Engine, S, C, show, symbols, is_const, is_atomic_record, cond_truth
 from absword import Layout, Eval, W, INF, feasible_envs
 
 NS = 'dbgroup::lock::'
@@ -128,6 +128,10 @@ class LockModel:
             r = ps[0].ret
             if isinstance(r, tuple) and r[0] == 'ne0':
                 r = r[1]
+            if isinstance(r, tuple) and r[0] == 'op' and r[1] == '!=' and is_const(r[3]) and r[3][1] == 0:
+                r = r[2]      # member != nullptr
+            elif isinstance(r, tuple) and r[0] == 'op' and r[1] == '!=' and is_const(r[2]) and r[2][1] == 0:
+                r = r[3]
             if isinstance(r, tuple) and r[0] == 's' and r[1].startswith('this->'):
                 own = r[1][len('this->'):]
             elif is_const(r):
@@ -210,14 +214,7 @@ class LockModel:
             return bool(v[1])
         if v == S('this'):
             return True
-        if isinstance(v, tuple) and v[0] == 'ne0':
-            v = v[1]
-        for c, o, _ in path.conds:
-            if c == ('ne0', v) or c == v:
-                return o
-            if isinstance(c, tuple) and c[0] == 'op' and c[1] in ('==', '!=') and c[2] == v and is_const(c[3]) and c[3][1] == 0:
-                return (not o) if c[1] == '==' else o
-        return None
+        return cond_truth(path.conds, v)
 
     # ---- lock-word objects
     def lock_obj_kind(self, obj, fn):
@@ -396,6 +393,8 @@ class WordLockRules(LockModel):
                     ks.add(d[3][1])
                 elif isinstance(d, tuple) and d[0] == 'op' and d[1] in ('|', '+', '^') and is_const(d[2]) and d[3] == r.pre_sym:
                     ks.add(d[2][1])
+                elif is_const(d) and d[1] and not (d[1] & (d[1] - 1)):
+                    ks.add(d[1])     # a constant written from a word certified to be zero
                 else:
                     raise AnalysisBroken('%s::%s: granting write %s is not cur (|,+,^) constant' % (self.cls, name, show(d)))
             if len(ks) != 1:
